@@ -323,6 +323,26 @@ def c01_cols(ctx, case):
         compare(ctx, got[:, j], one, "column %d of the 2-D result vs the 1-D result of that column (window=%r)" % (j, name), sig=sig)
 
 
+# the small shapes, enumerated (square and near-square matrices included: rows == columns is where an orientation test by
+# shape cannot tell the two layouts apart)
+def enum_cols_grid(tier):
+    for N in range(2, 13 if tier == "quick" else 25):
+        for c in sorted({1, 2, 3, N - 1, N, N + 1} - {0}):
+            for cplx in (False, True):
+                for name in ("hamming", "blackman", "bartlett"):
+                    x = {"kind": "noise", "n": N, "complex": cplx, "seed": 1000 * N + 10 * c + cplx, "noise": 1.0}
+                    cols = [dict(x, seed=x["seed"] + 7919 * j) for j in range(c)]
+                    for nfft in (None, N + 3):
+                        yield {"cols": cols, "window": name, "nfft": nfft}
+
+
+@sub("C01.cols_grid", enum=enum_cols_grid, exhaustive=True,
+     doc="the 2-D clause on every small shape N x c with c in {1, 2, 3, N-1, N, N+1} (N = 2..12; ..24 thorough), three windows, "
+         "NFFT default and N+3")
+def c01_cols_grid(ctx, case):
+    c01_cols(ctx, case)
+
+
 # ---- number-type invariance (integer samples of a narrow dtype) -------------------
 from vlib import dtypecheck as _dt   # noqa: E402
 
